@@ -5,14 +5,16 @@ import random
 from collections import Counter
 
 from .. import gen, sem
-from ..snapshot import CLASS_NAMES, STEREO, build, pg_from_json, pg_to_json
+from ..snapshot import CLASS_NAMES, DerivationWrong, STEREO, build, build_case, pg_from_json, pg_to_json
 
 LEVEL = "exploration"
 RULE = (
     "(i) pairs of small graphs (<=7 atoms, tiny alphabets; relabelled / mutated / independent second graph; empty and "
     "single-atom graphs; descriptors with placeholders) enumerated in full-graph mode with stereo on/off, stereo_change "
     "on/off, labels = default | colour refinement (as __eq__ passes them) | constant | element | element+degree: the "
-    "complete yielded list must equal the independent reference enumerator's set; (ii) symmetric skeletons "
+    "complete yielded list must equal the independent reference enumerator's set; (i') the same comparison for random "
+    "3-/4-regular one-element graphs of 8-16 atoms against themselves, a relabelled copy or a 2-switch (two bonds "
+    "exchanging partners) of themselves - labels and degrees decide nothing there; (ii) symmetric skeletons "
     "(methane ... neopentane, cubane, SF6; automorphism groups 2..31104) with and without descriptors, self and "
     "relabelled pairs: validity of every mapping, no duplicate, count = reference count, self-pairs closed under "
     "composition and inverse and containing the identity; (iii) topological_symmetry_number == number of "
@@ -32,7 +34,7 @@ ANCHORS = [
     "stereomolgraph.experimental:topological_symmetry_number",
 ]
 REQUIRED_ANCHORS = ANCHORS
-REQUIRED = ["pairs_small", "pairs_symmetric", "symmetry_numbers", "reverts", "nonempty_answers", "empty_answers", "group_closure_checked", "labels:default", "labels:colour", "labels:constant"]
+REQUIRED = ["pairs_small", "pairs_symmetric", "symmetry_numbers", "reverts", "nonempty_answers", "empty_answers", "group_closure_checked", "labels:default", "labels:colour", "labels:constant", "pairs_regular"]
 CASE_TIMEOUT = 120
 LABELS = ("default", "colour", "constant", "element", "element+degree")
 _diag = {"on": False, "bad": 0, "updates": 0, "reverts": 0}
@@ -93,6 +95,25 @@ def gen_cases(ctx):
         stereo = cls in STEREO and rng.random() < 0.75
         change = stereo and cls == "StereoCondensedReactionGraph" and rng.random() < 0.75
         yield {"kind": "small", "cls": cls, "a": pg_to_json(a), "b": pg_to_json(b), "stereo": stereo, "change": change, "labels": LABELS[(i // 4) % len(LABELS)], "bseed": rng.randrange(1 << 30)}
+    # dense regular one-element graphs (3-/4-regular, 8-16 atoms) against themselves, a relabelled copy or a 2-switch
+    # of themselves: labels and degrees decide nothing, every bond has to be checked by the search
+    nr = ctx.n(2400, 30000)
+    for i in range(nr):
+        cls = CLASS_NAMES[i % 4]
+        a = gen.random_regular_pg(rng, cls)
+        if a is None:
+            continue
+        how = i // 4 % 3
+        if how == 0:
+            b = a
+        elif how == 1:
+            b = sem.pg_relabel(a, gen.random_bijection(rng, a))
+        else:
+            b = gen.two_switch(rng, a)
+            if b is None:
+                continue
+            b = sem.pg_relabel(b, gen.random_bijection(rng, b))
+        yield {"kind": "small", "family": "regular", "cls": cls, "a": pg_to_json(a), "b": pg_to_json(b), "stereo": False, "change": False, "labels": "default" if i % 8 < 6 else "constant", "bseed": rng.randrange(1 << 30)}
     names = ["methane", "ethane", "c2h4", "cyclopropane", "benzene", "star5", "sf6", "two_methane", "cyclohexane", "cubane", "biphenyl_core", "neopentane"]
     ns = ctx.n(48, 640)
     for i in range(ns):
@@ -167,7 +188,14 @@ def check_case(ctx, case):
     else:
         stereo, change, lk = case["stereo"], False, "default"
         b = a if case["self"] else sem.pg_relabel(a, gen.random_bijection(brng, a, "perm"))
-    ga, gb = build(a, rng=brng), build(b, rng=brng)
+    try:
+        ga, via = build_case(a, case["bseed"])
+        gb, _ = build_case(b, case["bseed"] // 15)
+    except DerivationWrong as e:
+        ctx.violate(f"C05/derived-input-differs/{case['cls']}/{e.via}", f"deriving the input graph: {e}", case)
+        ctx.case()
+        return
+    ctx.count(f"via:{via}")
     if kind == "small" and lk == "colour" and (not a["atoms"] or not b["atoms"]):
         lk = "default"
     la, ra = _labels(lk, ga, a, stereo, change)
@@ -203,6 +231,8 @@ def check_case(ctx, case):
     nontrivial = (bool(ref) and reverts > 0) or (not ref and same_inv)
     ctx.case((kind, sem.canon_key(a), sem.canon_key(b), stereo, change, lk), nontrivial)
     ctx.count("pairs_small" if kind == "small" else "pairs_symmetric")
+    if case.get("family") == "regular":
+        ctx.count("pairs_regular")
     ctx.count("nonempty_answers" if ref else "empty_answers")
     ctx.count(f"labels:{lk}")
     cr, cf = _canon(real), _canon(ref)
